@@ -560,8 +560,9 @@ impl World {
                 return Some(format!("allocation {} value dropped {} times at quiescence", a, d));
             }
         }
-        if let Some(h) = HREL.lock().unwrap().iter().position(|&r| r != 1) {
-            return Some(format!("foreign handle object {} was released {} times at quiescence", h + 1, HREL.lock().unwrap()[h]));
+        let hrel: Vec<usize> = HREL.lock().unwrap().clone();
+        if let Some(h) = hrel.iter().position(|&r| r != 1) {
+            return Some(format!("foreign handle object {} was released {} times at quiescence", h + 1, hrel[h]));
         }
         let s = ledger::snap();
         if s.live != base.live {
